@@ -465,6 +465,7 @@ class Engine:
                 self.prefix = stack.pop()
                 self.pos = 0
                 self.trail = []
+                self.ndec = 0
                 self.pending = []
                 self.inputs_path = {}
                 self.solver.push()
@@ -499,10 +500,13 @@ class Engine:
 
     def decide(self, cond):
         cond = B(cond)
-        if len(self.trail) >= self.max_decisions:
+        self.ndec += 1
+        if self.ndec > self.max_decisions:
             raise Truncated()
         have, d = self._next_prefix()
         if have:
+            if not isinstance(d, bool):
+                raise RuntimeError("non-deterministic re-execution (expected a recorded branch)")
             self.solver.add(cond if d else z3.Not(cond))
             self.trail.append(d)
             return d
@@ -525,11 +529,48 @@ class Engine:
         self.trail.append(d)
         return d
 
+    def ask(self, cond):
+        """satisfiability of `cond` on the current path; the answer is recorded in the decision
+        trail, so re-executions that share this prefix do not ask the solver again"""
+        have, d = self._next_prefix()
+        if have:
+            if not (isinstance(d, tuple) and d[0] == "ask"):
+                raise RuntimeError("non-deterministic re-execution (expected a recorded query)")
+            self.trail.append(d)
+            return d[1]
+        r = self.check(B(cond))
+        d = ("ask", r)
+        self.pos += 1
+        self.prefix = self.prefix + [d]
+        self.trail.append(d)
+        return r
+
+    def pick(self, term, *extra):
+        """a value `term` can take on the current path (under `extra`); recorded like `ask`"""
+        have, d = self._next_prefix()
+        if have:
+            if not (isinstance(d, tuple) and d[0] == "pick"):
+                raise RuntimeError("non-deterministic re-execution (expected a recorded pick)")
+            self.trail.append(d)
+            return d[1]
+        r = self.check(*[B(x) for x in extra])
+        if r == "unknown":
+            raise Inconclusive()
+        if r != "sat":
+            raise Abort()
+        val = self.solver.model().eval(T(term), model_completion=True).as_long()
+        d = ("pick", val)
+        self.pos += 1
+        self.prefix = self.prefix + [d]
+        self.trail.append(d)
+        return val
+
     def concretize(self, x, why="", prefer=()):
         """fork on concrete values of x (at most fork_cap values per site)"""
         if not isinstance(x, SymInt):
             return int(x)
-        if len(self.trail) >= self.max_decisions:
+        self.ndec += 1
+        if self.ndec > self.max_decisions:
             raise Truncated()
         have, d = self._next_prefix()
         if have:
@@ -587,6 +628,20 @@ class Engine:
         if isinstance(cond, bool):
             cond = z3.BoolVal(cond)
         cond = B(cond)
+        have, d = self._next_prefix()
+        if have:
+            if not (isinstance(d, tuple) and d[0] == "pr"):
+                raise RuntimeError("non-deterministic re-execution (expected a recorded verdict)")
+            self.trail.append(d)
+            return d[1]
+        ok = self._prove(cond, what, detail)
+        d = ("pr", ok)
+        self.pos += 1
+        self.prefix = self.prefix + [d]
+        self.trail.append(d)
+        return ok
+
+    def _prove(self, cond, what, detail):
         neg = z3.simplify(z3.Not(cond))
         st = self.stats
         st.obligations += 1
